@@ -208,3 +208,199 @@ def exhaustive_small(max_len, max_elems=6, prios=(1, 2), kind=0, tag="ex"):
                     rec2(seq + ["r %d" % i], ops + [("r", i)])
     rec2([], [])
     return out
+
+
+# ---------------------------------------------------------------------------------------------
+# RAW scripts (pointer-level model only): the private _merge/_collapse run on detached sub-heaps,
+# pop/remove taken apart into their single assignments ("w" raw writes) so that the state BETWEEN
+# the unlink, the collapse and the final merge is dumped and compared.
+# ---------------------------------------------------------------------------------------------
+class RawSim:
+    """aiming aid for raw scripts: the bare hook memory of the whole pool + _root; nothing is checked against it"""
+    def __init__(self, kind, pool):
+        self.kind, self.n, self.root = kind, pool, None
+        self.c, self.b, self.s, self.prio = [None] * pool, [None] * pool, [None] * pool, [0] * pool
+        self.heap = set()      # nodes reachable from _root
+        self.det = {}          # root of a detached tree -> set of its nodes
+    def free(self):
+        used = set(self.heap)
+        for v in self.det.values(): used |= v
+        return [i for i in range(self.n) if i not in used]
+    def _cmp(self, a, b):
+        return lower(self.kind, (self.prio[a], a), (self.prio[b], b))
+    _merge = Sim._merge
+    _collapse = Sim._collapse
+    def subtree(self, i):
+        out, st = set(), [i]
+        while st:
+            x = st.pop(); out.add(x)
+            ch = self.c[x]
+            while ch is not None:
+                st.append(ch); ch = self.s[ch]
+        return out
+    def nchildren(self, i):
+        n, ch = 0, self.c[i]
+        while ch is not None:
+            n += 1; ch = self.s[ch]
+        return n
+
+def gen_raw_case(rng, n_ops, kind=None, pool=None):
+    kind = rng.choice([0, 0, 1, 2, 3, 4]) if kind is None else kind
+    pool = pool or rng.choice([6, 10, 16, 24, 32])
+    lines = ["pool %d cmp %d raw" % (pool, kind)]
+    sim = RawSim(kind, pool)
+    mode = rng.choice(["ties", "few", "asc", "desc", "random"])
+    ctr = [0]
+    def prio():
+        ctr[0] += 1
+        return {"ties": rng.randrange(3), "few": rng.randrange(8), "asc": ctr[0], "desc": 100000 - ctr[0],
+                "random": rng.randrange(1000)}[mode]
+    def P(i):
+        p = prio(); sim.prio[i] = p; lines.append("P %d %d" % (i, p))
+    def w(i, fld, v):
+        getattr(sim, fld)[i] = v
+        lines.append("w %d %s %s" % (i, fld, "-" if v is None else v))
+    def R(v):
+        sim.root = v; lines.append("R %s" % ("-" if v is None else v))
+    def m(a, b):
+        lines.append("m %d %d" % (a, b)); return sim._merge(a, b)
+    def k(a):
+        lines.append("k %d" % a); return sim._collapse(a)
+    def absorb(t):
+        """merge the detached tree t into the heap"""
+        nodes = sim.det.pop(t)
+        R(m(sim.root, t) if sim.root is not None else t)
+        sim.heap |= nodes
+    for _ in range(n_ops):
+        free = sim.free()
+        acts = []
+        if free: acts += ["push", "push", "single"]
+        if len(free) >= 2: acts += ["merge-fresh"]
+        if len(sim.det) >= 2: acts += ["merge-det", "chain", "chain"]
+        if sim.det: acts += ["absorb", "chain1"]
+        if sim.root is not None: acts += ["pop", "manual-pop", "manual-pop"]
+        inner = [i for i in sim.heap if i != sim.root]
+        if inner: acts += ["remove", "manual-remove", "manual-remove", "detach"]
+        a = rng.choice(acts)
+        if a == "push":
+            i = rng.choice(free); p = prio(); sim.prio[i] = p
+            lines.append("p %d %d" % (i, p))
+            sim.root = i if sim.root is None else sim._merge(sim.root, i)
+            sim.heap.add(i)
+        elif a == "single":
+            i = rng.choice(free); P(i); sim.det[i] = {i}
+        elif a == "merge-fresh":
+            x, y = rng.sample(free, 2); P(x); P(y)
+            sim.det[m(x, y)] = {x, y}
+        elif a == "merge-det":
+            x, y = rng.sample(sorted(sim.det), 2)
+            nodes = sim.det.pop(x) | sim.det.pop(y)
+            sim.det[m(x, y)] = nodes
+        elif a in ("chain", "chain1"):
+            # link some detached trees into a sibling chain by raw writes and collapse it
+            ts = sorted(sim.det)
+            rng.shuffle(ts)
+            ts = ts[:1] if a == "chain1" else ts[:rng.randrange(2, len(ts) + 1)]
+            for x, y in zip(ts, ts[1:]):
+                w(x, "s", y); w(y, "b", x)
+            if rng.random() < 0.4:      # a stale backlink in the head is overwritten by _collapse
+                w(ts[0], "b", rng.randrange(pool))
+            nodes = set()
+            for x in ts: nodes |= sim.det.pop(x)
+            sim.det[k(ts[0])] = nodes
+        elif a == "absorb":
+            absorb(rng.choice(sorted(sim.det)))
+        elif a == "pop":
+            r = sim.root; lines.append("o")
+            ch = sim.c[r]; sim.c[r] = None
+            if ch is not None:
+                sim.b[ch] = None; sim.root = sim._collapse(ch)
+            else:
+                sim.root = None
+            sim.heap.discard(r)
+        elif a == "manual-pop":
+            # pop() taken apart: the state after the detach and after _collapse is dumped
+            r = sim.root; ch = sim.c[r]
+            if ch is not None:
+                w(r, "c", None); w(ch, "b", None); R(k(ch))
+            else:
+                R(None)
+            sim.heap.discard(r)
+        elif a == "remove":
+            e = rng.choice(sorted(inner)); lines.append("r %d" % e)
+            pd, sb, ch = sim.b[e], sim.s[e], sim.c[e]
+            if sim.c[pd] == e: sim.c[pd] = sb
+            else: sim.s[pd] = sb
+            if sb is not None: sim.b[sb] = pd
+            if ch is not None:
+                sim.b[ch] = None; sim.root = sim._merge(sim.root, sim._collapse(ch))
+            sim.b[e] = sim.s[e] = sim.c[e] = None
+            sim.heap.discard(e)
+        elif a in ("manual-remove", "detach"):
+            # remove() taken apart: unlink through the backlink by raw writes ...
+            want = rng.choice(["odd", "even", "any"])
+            good = [i for i in inner if (want == "any" or (sim.nchildren(i) > 0 and sim.nchildren(i) % 2 == (want == "odd")))] or inner
+            e = rng.choice(sorted(good))
+            pd, sb, ch = sim.b[e], sim.s[e], sim.c[e]
+            w(pd, "c" if sim.c[pd] == e else "s", sb)
+            if sb is not None: w(sb, "b", pd)
+            if a == "detach":
+                # ... and keep the node with its whole subtree as a detached tree
+                w(e, "b", None); w(e, "s", None)
+                nodes = sim.subtree(e); sim.heap -= nodes; sim.det[e] = nodes
+            else:
+                # ... then _collapse of the children and _merge into the root as two separate, dumped calls
+                if ch is not None:
+                    w(ch, "b", None); t = k(ch); R(m(sim.root, t))
+                w(e, "b", None); w(e, "s", None); w(e, "c", None)
+                sim.heap.discard(e)
+    # an FRG_ASSERT as the last op now and then: both sides must stop
+    if rng.random() < 0.15:
+        inner = [i for i in sim.heap if i != sim.root]
+        e = rng.choice(["merge-nonroot", "collapse-null", "collapse-broken-backlink", "merge-linked"])
+        if e == "merge-nonroot" and inner and sim.root is not None: lines.append("m %d %d" % (sim.root, rng.choice(sorted(inner))))
+        elif e == "collapse-null": lines.append("k -")
+        elif e == "collapse-broken-backlink" and len(sim.det) >= 2:
+            x, y = rng.sample(sorted(sim.det), 2); lines += ["w %d s %d" % (x, y), "k %d" % x]
+        elif e == "merge-linked" and len(sim.det) >= 2:
+            x, y = rng.sample(sorted(sim.det), 2); lines += ["w %d s %d" % (x, y), "m %d %d" % (x, y)]
+    return lines
+
+def raw_corpus():
+    """hand-made raw scripts: _collapse on chains of 1..9 detached singletons / two-node trees, stale head backlink"""
+    cs = []
+    for kind in (0, 4):
+        for n in range(1, 10):
+            ops = ["P %d %d" % (i, (i * 7) % 5) for i in range(n)]
+            for i in range(n - 1):
+                ops += ["w %d s %d" % (i, i + 1), "w %d b %d" % (i + 1, i)]
+            cs.append(("raw-collapse-%d-k%d" % (n, kind), ["pool 12 cmp %d raw" % kind] + ops + ["k 0", "R 0", "o"]))
+            cs.append(("raw-collapse-stale-%d-k%d" % (n, kind), ["pool 12 cmp %d raw" % kind] + ops + ["w 0 b 11", "k 0"]))
+    cs.append(("raw-merge-chain", ["pool 8 cmp 0 raw", "P 0 5", "P 1 3", "P 2 5", "P 3 9", "m 0 1", "m 2 3", "m 0 3", "R 3", "o", "o"]))
+    cs.append(("raw-merge-assert", ["pool 8 cmp 0 raw", "P 0 5", "P 1 3", "m 0 1", "m 0 1"]))
+    cs.append(("raw-collapse-null", ["pool 4 cmp 0 raw", "k -"]))
+    return cs
+
+def raw_exhaustive_collapse(max_k, prios=(1, 2), kind=0, two_level=False):
+    """_collapse on every chain of 1..max_k detached trees with every assignment of the given priorities;
+    two_level: every second tree is a two-node tree built with _merge first."""
+    out = []
+    for k in range(1, max_k + 1):
+        for ps in itertools.product(prios, repeat=k):
+            ops, roots, nxt = [], [], k
+            for i, p in enumerate(ps):
+                ops.append("P %d %d" % (i, p))
+            sim = RawSim(kind, 2 * k + 1)
+            for i, p in enumerate(ps): sim.prio[i] = p
+            for i in range(k):
+                if two_level and i % 2 == 1:
+                    ops += ["P %d %d" % (nxt, prios[0]), "m %d %d" % (i, nxt)]
+                    sim.prio[nxt] = prios[0]
+                    roots.append(sim._merge(i, nxt)); nxt += 1
+                else:
+                    roots.append(i)
+            for a, b in zip(roots, roots[1:]):
+                ops += ["w %d s %d" % (a, b), "w %d b %d" % (b, a)]
+            out.append(("rawex%s-k%d-%d" % ("2" if two_level else "", kind, len(out)),
+                        ["pool %d cmp %d raw" % (2 * k + 1, kind)] + ops + ["k %d" % roots[0]]))
+    return out
